@@ -4,6 +4,7 @@ import TemplVerif.Drive.C04
 import TemplVerif.Drive.C01
 import TemplVerif.Drive.C03
 import TemplVerif.Drive.C05
+import TemplVerif.Drive.C20
 import Std.Data.HashMap
 open TemplVerif TemplVerif.Drive
 
@@ -14,6 +15,7 @@ def dispatch (ws : List String) : Verdict :=
   | "C01" :: rest => C01.handle rest
   | "C03" :: rest => C03.handle rest
   | "C05" :: rest => C05.handle rest
+  | "C20" :: rest => C20.handle rest
   | _ => .badOp
 
 structure Stats where
